@@ -265,6 +265,7 @@ fn blob_call(id: u64, target: usize, kind: u64) -> (Vec<u8>, usize, String) {
 
 pub async fn scenario_c08() {
 	const P: &str = "C08";
+	rt::expect_panic_marker(world::PANIC_MARKER);
 	let resp_limit = *rt::pick("resp_limit", &[256u32, 1000, 4096, 65536]);
 	let req_a = *rt::pick("req_a", &[1000u32, 4096, 65536]);
 	let req_b = if req_a == 65536 { 4096 } else { 65536 };
@@ -278,7 +279,11 @@ pub async fn scenario_c08() {
 		let id = i as u64 + 1;
 		let delta = rt::draw("delta", 7) as i64 - 3;
 		let target = (l as i64 + delta) as usize;
-		if rt::chance("error_result", 1, 5) {
+		if rt::chance("panic_result", 1, 8) {
+			// a blocking handler that panics with a long message: the reply is the library's fixed "Internal error"
+			let reply = format!("{{\"jsonrpc\":\"2.0\",\"id\":{id},\"error\":{{\"code\":-32603,\"message\":\"Internal error\"}}}}");
+			singles.push((id, format!("{{\"jsonrpc\":\"2.0\",\"id\":{id},\"method\":\"bpanicn\",\"params\":[{}]}}", target).into_bytes(), reply.len(), "panic".to_string(), true));
+		} else if rt::chance("error_result", 1, 5) {
 			// error result with data
 			let overhead = format!("{{\"jsonrpc\":\"2.0\",\"id\":{id},\"error\":{{\"code\":-32051,\"message\":\"big failure\",\"data\":\"\"}}}}").len();
 			let n = target.saturating_sub(overhead);
@@ -313,6 +318,14 @@ pub async fn scenario_c08() {
 			let reserve = if invalid_at.is_some_and(|p| p > i) { 80 } else { 0 };
 			let share = if left <= 1 { remaining.saturating_sub(reserve) } else { (remaining.saturating_sub(reserve) / left).max(40) };
 			let (m, len, _) = blob_call(id, share.max(response_len(id, "\"\"")), 0);
+			// some entries are answered by a slow asynchronous handler (same result): the order in which the entries of a
+			// batch complete must not matter
+			let m = if rt::chance("async_entry", 1, 3) {
+				let delay = *rt::pick("entry_delay", &[0u64, 5, 300]);
+				String::from_utf8(m).unwrap().replace("\"method\":\"blob\"", "\"method\":\"ablob\"").replace(",0]}", &format!(",0,{delay}]}}")).into_bytes()
+			} else {
+				m
+			};
 			remaining = remaining.saturating_sub(len);
 			entries.push((id, m, len));
 		}
@@ -355,6 +368,7 @@ pub async fn scenario_c08() {
 					// fits (exactly at the limit included): sent unchanged
 					let unchanged = match (&parsed, is_err) {
 						(Ok((_, Ok(v))), false) => v.as_str() == Some(blob.as_str()) && reply.len() == *len,
+						(Ok((_, Err(c))), true) if blob == "panic" => *c == -32603 && reply.len() == *len,
 						(Ok((_, Err(c))), true) => *c == -32051 && reply.len() == *len,
 						_ => false,
 					};
